@@ -318,8 +318,7 @@ func directiveArgAssertChecked(c *Ctx) {
 var errorsDroppedReviewed = map[string]string{
 	"(graphql.Omittable[T]).MarshalGQL→MarshalGQLContext":        "the value's own ContextMarshaler reports its error through the context it is given (graphql.AddError in the generated adapter); Omittable has no error result to hand it on",
 	"(graphql.Omittable[T]).MarshalGQLContext→MarshalGQLContext": "as above",
-	"graphql/handler.sendError→Marshal":                          "marshals a graphql.Response built from strings only; cannot fail",
-	"(*graphql/handler.Server).ServeHTTP→Marshal":                "marshals a graphql.Response built from the presented error; its failure leaves an empty body on an already failing request",
+	"graphql/handler:Marshal(*graphql.Response)":                 "package handler marshals a graphql.Response only to report a failure (sendError: built from strings; the recover epilogue of ServeHTTP: built from the presented error); a failing encoder leaves an empty body on a request that has already failed",
 }
 
 func errorsNotDropped(c *Ctx) {
@@ -384,6 +383,18 @@ func errorsNotDropped(c *Ctx) {
 				if why, ok := errorsDroppedReviewed[key]; ok {
 					c.R.OK(key, c.ipos(i), "reviewed: "+why)
 					continue
+				}
+				// reviewed by what is encoded rather than by where: package + callee + static type of the encoded value
+				if len(call.Call.Args) > 0 && top.Pkg != nil {
+					arg := call.Call.Args[0]
+					if mi, ok := arg.(*ssa.MakeInterface); ok {
+						arg = mi.X
+					}
+					k2 := shortPkgPath(top.Pkg.Pkg.Path()) + ":" + name + "(" + strings.ReplaceAll(arg.Type().String(), modPath("")+"/", "") + ")"
+					if why, ok := errorsDroppedReviewed[k2]; ok {
+						c.R.OK(key, c.ipos(i), "reviewed: "+why)
+						continue
+					}
 				}
 				c.R.Bad(key, c.ipos(i), "the error returned by "+name+" is ignored here: when it fails the code carries on as if it had succeeded (a value is missing from the output, a failed step is not reported)")
 			}
